@@ -323,6 +323,7 @@ bool Exec::apply(const Op& o) {
             case 2: if (!y) return false; res = LIB(cJSONUtils_GenerateMergePatchCaseSensitive(x->real, y->real)); break;
             case 3: if (!y) return false; res = LIB(cJSONUtils_GenerateMergePatch(x->real, y->real)); break;
             case 4: case 5: { cJSON* patch = LIB(cJSON_Parse("[{\"op\":\"test\",\"path\":\"\",\"value\":{\"b\":1,\"a\":2,\"c\":{\"z\":0,\"y\":0}}}]")); if (o.a == 4) LIBV(cJSONUtils_ApplyPatchesCaseSensitive(x->real, patch)); else LIBV(cJSONUtils_ApplyPatches(x->real, patch)); Walk pw = walk(patch); expect(pw.ok, "sort:patch-malformed-after-test", "patch document malformed after a test operation: " + pw.err); LIBV(cJSON_Delete(patch)); break; }
+            case 7: case 8: if (!y) return false; ledger_arm_fault((uint64_t)(o.a - 6), false); res = LIB(cJSONUtils_GenerateMergePatchCaseSensitive(x->real, y->real)); ledger_arm_fault(0, false); break;   // generation that fails for lack of memory has sorted its inputs all the same
             case 6: { MN* t = node(o.c); if (!t) return false; char* ptr = LIB(cJSONUtils_FindPointerFromObjectTo(x->real, t->real)); if (ptr) LIBV(cJSON_free(ptr)); break; }
             default: return false;
         }
@@ -334,7 +335,7 @@ bool Exec::apply(const Op& o) {
             for (cJSON* c = m->real->child; c && g < 64; c = c->next, g++) { MN* f = nullptr; for (MN* k : m->kids) if (k->real == c) f = k; if (!f) { why = "unknown member node after utility call"; return false; } nk.push_back(f); }
             if (nk.size() != m->kids.size()) { why = "object lost or duplicated members during a utility call (" + std::to_string(nk.size()) + " reachable of " + std::to_string(m->kids.size()) + ")"; return false; }
             m->kids = nk; for (MN* k : m->kids) if (!sync(k, why)) return false; return true; } };
-        std::string why; if (!R::sync(x, why) || (y && o.a < 4 && !R::sync(y, why))) fail("sort:members-changed-by-utility", why);
+        std::string why; if (!R::sync(x, why) || (y && (o.a < 4 || o.a >= 7) && !R::sync(y, why))) fail("sort:members-changed-by-utility", why);
         return true;
     }
     }
